@@ -111,6 +111,105 @@ def text_stage(rep):
     return n
 
 
+def der_site_models():
+    """(id, text, class, expected set of states) - where der() can be written and how many variables share it."""
+    out = []
+    # 1. every site a der() can be written at, for a top-level and a nested variable
+    sites = {
+        "equation": ("", "  der(x) = -x;\n", ""),
+        "equation-expr": ("  Real z0;\n", "  z0 = 2 * der(x) + 1;\n  x = 3 * time;\n", ""),
+        "initial-only": ("", "  x = 3 * time;\n", "  der(x) = 0;\n"),
+        "binding": ("  Real v0 = der(x);\n", "  x = 3 * time;\n", ""),
+        "binding-expr": ("  parameter Real k0 = 3;\n  output Real v0 = der(x) + k0;\n", "  x = 3 * time;\n", ""),
+        "binding-before-decl": None,  # handled below (v0 declared before x)
+    }
+    for sid, parts in sites.items():
+        if parts is None:
+            text = "model M\n  Real v0 = der(x);\n  Real x;\n  Real z;\nequation\n  x = 3 * time;\n  z = 1;\nend M;\n"
+        else:
+            decl, eq, ieq = parts
+            text = "model M\n  Real x;\n" + decl + "  Real z;\n" + ("initial equation\n" + ieq if ieq else "") + "equation\n" + eq + "  z = 1;\nend M;\n"
+        out.append((f"site:{sid}:top", text, "M", {"x"}))
+        # the same class as a component (once, twice) of an enclosing model
+        out.append((f"site:{sid}:nested", text.replace("model M", "model C").replace("end M;", "end C;").replace("output Real", "Real")
+                    + "model M\n  C c;\n  C d;\n  Real top;\nequation\n  top = 2;\nend M;\n", "M", {"c.x", "d.x"}))
+    # 2. der() in a modification of a component binding, replacing a binding that had its own der()
+    sub = "model Sub\n  Real s;\n  Real v = der(s);\nequation\n  s = 2 * time;\nend Sub;\n"
+    out.append(("site:modifier", sub + "model M\n  Real q;\n  Sub b(v = der(q));\n  Sub a;\nequation\n  q = 1;\nend M;\n", "M", {"q", "a.s"}))
+    out.append(("site:modifier-only", "model Sub\n  Real s;\n  Real v;\nequation\n  s = 2 * time;\nend Sub;\n"
+                "model M\n  Real q;\n  Sub b(v = der(q));\nequation\n  q = 1;\nend M;\n", "M", {"q"}))
+    # 3. several states: declaration order vs the order in which der() is first met (initial equations are walked first)
+    import itertools as it
+    for perm in it.permutations("abc"):
+        for first_in_initial in (None, "c", "b"):
+            eqs = "".join(f"  der({v}) = -{v};\n" for v in perm)
+            ieq = f"initial equation\n  der({first_in_initial}) = 0;\n" if first_in_initial else ""
+            text = "model M\n  Real a;\n  Real b;\n  Real c;\n" + ieq + "equation\n" + eqs + "end M;\n"
+            out.append((f"order:{''.join(perm)}:{first_in_initial or '-'}", text, "M", {"a", "b", "c"}))
+    # 4. arrays differentiated inside for-loops: one loop, two loops with the same / another index name, loop + plain use
+    loops = {
+        "one-loop": "  for i in 1:3 loop\n    der(x[i]) = -x[i];\n  end for;\n  y = {1, 2, 3};\n",
+        "two-loops-same-index": "  for i in 1:3 loop\n    der(x[i]) = -x[i];\n  end for;\n  for i in 1:3 loop\n    y[i] = der(x[i]) + 1;\n  end for;\n",
+        "two-loops-other-index": "  for i in 1:3 loop\n    der(x[i]) = -x[i];\n  end for;\n  for j in 1:3 loop\n    y[j] = der(x[j]) + 1;\n  end for;\n",
+        "loop-then-whole": "  for i in 1:3 loop\n    der(x[i]) = -x[i];\n  end for;\n  y = der(x);\n",
+        "whole-then-loop": "  der(x) = -x;\n  for i in 1:3 loop\n    y[i] = 2 * der(x[i]);\n  end for;\n",
+        "loop-two-arrays": "  for i in 1:3 loop\n    der(x[i]) = -y[i];\n    der(y[i]) = x[i];\n  end for;\n",
+    }
+    for lid, eq in loops.items():
+        text = "model M\n  Real x[3];\n  Real y[3];\nequation\n" + eq + "end M;\n"
+        out.append((f"loop:{lid}", text, "M", {"x", "y"} if lid == "loop-two-arrays" else {"x"}))
+    return out
+
+
+def der_site_stage(rep, only=None):
+    """Concrete structural stage: wherever der() is written, the variable is a state with exactly one derivative
+    variable at the same position, and every symbol the equations use is in exactly one category."""
+    import logging
+    logging.disable(logging.CRITICAL)
+    import casadi as ca
+    from props import h10
+    from pymoca import parser
+    from pymoca.backends.casadi import generator
+    n = 0
+    for mid, text, cls, want_states in der_site_models():
+        if only is not None and mid != only:
+            continue
+        n += 1
+        case = "dersite:" + mid
+        try:
+            m = generator.generate(parser.parse(text, bypass_cache=True), cls, {})
+        except Exception as e:
+            rep.violation(case + ":raises", f"generate raised {type(e).__name__}: {str(e)[:120]}", {"model_text": text, "der_site": mid})
+            continue
+        cats, ders, outs = h10.observe(m)
+        everywhere = [x for k in cats for x in cats[k]] + ders
+        if set(cats["states"]) != want_states:
+            rep.violation(case + ":states", f"states = {cats['states']}, expected {sorted(want_states)} (every variable der() is applied to, and only those)", {"model_text": text, "der_site": mid})
+            continue
+        if ders != ["der(" + x + ")" for x in cats["states"]]:
+            rep.violation(case + ":der-order", f"der_states = {ders} is not the list of derivatives of states = {cats['states']} in the same order", {"model_text": text, "der_site": mid})
+        for x in set(everywhere):
+            if everywhere.count(x) != 1:
+                rep.violation(case + ":duplicate", f"{x} appears {everywhere.count(x)} times in the category lists", {"model_text": text, "der_site": mid})
+        for st in want_states:
+            if st in cats["alg_states"]:
+                rep.violation(case + ":also-algebraic", f"{st} is both a state and an algebraic variable", {"model_text": text, "der_site": mid})
+        used = set()
+        for e in list(m.equations) + list(m.initial_equations):
+            used |= {v.name() for v in ca.symvar(e)}
+        stray = sorted(used - set(everywhere) - {"time"})
+        if stray:
+            rep.violation(case + ":uncategorised-symbol", f"the model's equations use {stray}, which are in no category (a second derivative variable / a variable classified nowhere)", {"model_text": text, "der_site": mid})
+        try:
+            m.dae_residual_function
+            m.initial_residual_function
+        except Exception as e:
+            rep.violation(case + ":residual", f"a residual function cannot be built: {str(e)[:150]}", {"model_text": text, "der_site": mid})
+    rep.coverage["der_site_models_checked"] = n
+    return n
+
+
+
 def replay(path):
     import json
     import logging
@@ -119,6 +218,11 @@ def replay(path):
     from pymoca import parser
     from pymoca.backends.casadi import generator
     r = json.load(open(path))["replay"]
+    if "model_text" in r and r.get("der_site"):
+        rep = Report(PROP, "quick", "model_checking", 0)
+        der_site_stage(rep, only=r["der_site"])
+        print(rep.violations[:3])
+        return 1 if rep.violations else 0
     if "model_text" in r:
         m = generator.generate(parser.parse(r["model_text"], bypass_cache=True), "M", {})
         cats, ders, outs = h10.observe(m)
@@ -169,6 +273,7 @@ def main():
             else:
                 rep.harness_error(f"counterexample {v.func}[{v.pin}]({argtxt}) did not reproduce concretely")
     ntext = text_stage(rep)
+    ntext += der_site_stage(rep)
     cov = rep.coverage
     cov["states"] = max(1, n["confirmed"])
     cov["transitions"] = max(1, len(vs))
@@ -178,7 +283,11 @@ def main():
     cov["functions_encoded"] = ["tree.flatten, tree.annotate_states, casadi.generator.Generator.exitClass/_ast_symbols_to_variables/get_derivative (executed symbolically by CrossHair)"]
     cov["bounds"] = ("one subject variable + fixed neighbours; symbolic: flow flag x variability {none,discrete,parameter,constant} x causality {none,input,output}; "
                      "enumerated shards: type {Real,Integer,Boolean,String} x {top-level, nested component} x der usage {none, direct, inside an expression, "
-                     "initial equation only, from the enclosing model, after a closed sub-expression inside der()} x declaration order")
+                     "initial equation only, from the enclosing model, after a closed sub-expression inside der()} x declaration order; "
+                     "concrete der-site stage (38 models): der() written in an equation / an expression / an initial equation only / a declaration binding (before or after the declaration) / "
+                     "a component modification, top-level and in two instances of a class; 3 states x every order of first use x initial-equation first use; arrays differentiated in one or two "
+                     "for-loops (same / other index name), loop + whole-array use, two arrays in one loop - states are exactly the differentiated variables, der_states[i] is der(states[i]), "
+                     "every symbol the equations use is in exactly one category, both residual functions can be built")
     rep.assumptions += ["combinations Modelica forbids (der of non-Real / constant / parameter / discrete, String variables that are not constants or parameters) are excluded by precondition",
                         "declaration order is asserted between variables declared in the same class instance only",
                         "the prefix list is written into the parsed template; the real-text stage checks that the parser produces the same list for every spelling"]
